@@ -36,7 +36,8 @@ EXPLANATION = (
     'dominated by a membership test. R8: parser actions attach each optional part (doc, '
     'annotations, default, attrs, examples) under its own presence test only. Decides these '
     'structural parts, not field-by-field fidelity.'
-    ' R9: route attribute values are tested for absence with `is None` only, so that a declared 0/false/"" is not replaced by the schema default.')
+    ' R9: route attribute values are tested for absence with `is None` only, so that a declared 0/false/"" is not replaced by the schema default.'
+    ' RD (decision drift, stonelint.conddrift): the tests of the functions this property is anchored in (stonelint.ownership) are compared with reference/conditions.json; a relation, polarity or connective changed over the same operands, or an operand purely added or dropped, is a violation; re-spellings and new or removed tests are not claimed.')
 ASSUMPTIONS = [
     'registries of ApiNamespace are the attributes initialised to [] / {} in its __init__',
     'a "membership test" is `key in registry` / `key not in registry` on the same key and registry',
@@ -535,3 +536,7 @@ def run(pm, ctx):
               'StructField.check_attr_repr decides absence by `attr is None`', sf.loc,
               msg='StructField.check_attr_repr no longer tests `attr is None`',
               key='C02-R9|%s|none-tests' % sf.qualname)
+
+    from ..conddrift import run_decisions
+    from ..ownership import OWN
+    run_decisions(pm, ctx, 'C02-RD', OWN['C02'])
